@@ -26,9 +26,9 @@ func init() {
 	register(&Rule{ID: "R-INFIXSET", Floor: 27, Run: ruleInfixSet,
 		Text: "The tokens with a registered infix parselet are exactly the tokens with an entry in the precedence table."})
 	register(&Rule{ID: "R-PRATT", Floor: 8, Run: rulePratt,
-		Text: "The Pratt loop continues on a strict < between the caller's binding power and the next operator's (equal levels group left to right); infix parselets read the operator's binding power before advancing past it; prefix operands are parsed at the prefix level, bracketed sub-expressions at the lowest level."})
+		Text: "The Pratt loop continues on a strict < between the caller's binding power and the next operator's (equal levels group left to right); infix parselets read the operator's binding power before advancing past it and hand it to the recursive parse unchanged on every path (no adjustment for particular operators); prefix operands are parsed at the prefix level, bracketed sub-expressions at the lowest level."})
 	register(&Rule{ID: "R-TERNGUARD", Floor: 3, Run: ruleTernGuard,
-		Text: "The ternary parselet rejects nesting: the in-ternary flag is tested first (true → error), set before the arms are parsed, and cleared by a deferred call."})
+		Text: "The ternary parselet rejects nesting: the in-ternary flag is tested first (true → error), set before the arms are parsed, and cleared by a deferred call; the condition, which was parsed before the flag was set, is searched for a ternary by a function that has a case for every kind of node that can occur below an expression and can hold one, and reads every such child."})
 	register(&Rule{ID: "R-LOCALGUARD", Floor: 1, Run: ruleLocalGuard,
 		Text: "A local-variable node is only built when the parser is inside a function (dominated by the true edge of the in-function flag)."})
 	register(&Rule{ID: "R-TOPSTOP", Floor: 1, Run: ruleTopStop,
